@@ -9,7 +9,7 @@ use serde_json::{json, Value};
 use zmodel::tables::{window_of_descriptor, WINDOW_MAX};
 
 pub const FRONTS: [&str; 8] = ["reset", "init", "decode_all", "decode_all_to_vec", "decode_from_to", "StreamingDecoder::new", "StreamingDecoder::new_with_max_window_size", "StreamingDecoder::new_with_decoder"];
-pub const POSITIONS: [&str; 4] = ["first frame", "after a completed frame", "after a failed frame", "after a rejected frame"];
+pub const POSITIONS: [&str; 5] = ["first frame", "after a completed frame", "after a failed frame", "after a rejected frame", "after a completed frame with an 8 MiB window"];
 
 #[derive(Clone, Debug)]
 struct Win {
@@ -53,6 +53,10 @@ fn windows() -> Vec<Win> {
 
 fn small_frame() -> Vec<u8> {
     vec![0x28, 0xB5, 0x2F, 0xFD, 0x00, 0x00, 0x19, 0x00, 0x00, b'a', b'b', b'c']
+}
+/// the largest window the default limit accepts: a caller may lower the limit afterwards
+fn wide_frame() -> Vec<u8> {
+    vec![0x28, 0xB5, 0x2F, 0xFD, 0x00, 0x68, 0x19, 0x00, 0x00, b'a', b'b', b'c']
 }
 fn corrupt_frame() -> Vec<u8> {
     vec![0x28, 0xB5, 0x2F, 0xFD, 0x00, 0x00, 0x07, 0x00, 0x00]
@@ -100,6 +104,12 @@ fn one(a: &mut Acc, w: &Win, limit: Option<u64>, pos: usize, front: usize) {
             }
             3 => {
                 let _ = dec.reset(oversize_frame().as_slice());
+            }
+            4 => {
+                let mut o = Vec::with_capacity(16);
+                if dec.decode_all_to_vec(&wide_frame(), &mut o).is_err() || o != b"abc" {
+                    return Out::OtherError("MODEL: the 8 MiB-window prologue frame did not decode".into());
+                }
             }
             _ => {}
         }
@@ -185,7 +195,7 @@ pub fn main(tier: Tier, replay: Option<Value>) -> i32 {
         limits.sort();
         limits.dedup();
         for l in limits {
-            for pos in 0..4 {
+            for pos in 0..5 {
                 for front in 0..8 {
                     if (front == 5 || front == 6 || front == 4) && pos != 0 {
                         continue; // these front ends always start from a new decoder
@@ -202,7 +212,7 @@ pub fn main(tier: Tier, replay: Option<Value>) -> i32 {
     merge(&mut run, "C11", "windows_x_limits_x_positions_x_front_ends", accs, true);
     run.set("windows", ws.len() as u64);
     run.set("exhaustive", true);
-    run.set("rule", "all 256 window descriptors and 26 single-segment content sizes (every field width at its boundaries, the default limit +-1, the format maximum +-1, 2^63, 2^64-1) x limits {unset, 0, 1023, 1024, default, format max -1/0/+1, 2^64-1, this window -1/0/+1} x position {first frame, after a completed / failed / rejected frame on the same decoder} x 8 front ends. Reference rule: accept <=> window <= min(limit, format maximum); on rejection the error carries requested == declared window and max == effective limit and no single allocation >= 64 KiB was requested before it; an accepted huge window whose window-sized allocation the harness refuses is recorded as accepted. Every case is distinct; non-trivial = outcome agrees with the rule (all cases reach the limit check)");
+    run.set("rule", "all 256 window descriptors and 26 single-segment content sizes (every field width at its boundaries, the default limit +-1, the format maximum +-1, 2^63, 2^64-1) x limits {unset, 0, 1023, 1024, default, format max -1/0/+1, 2^64-1, this window -1/0/+1} x position {first frame, after a completed / failed / rejected frame on the same decoder, after a completed frame with an 8 MiB window (so that the limit can be lowered below a window already served)} x 8 front ends. Reference rule: accept <=> window <= min(limit, format maximum); on rejection the error carries requested == declared window and max == effective limit and no single allocation >= 64 KiB was requested before it; an accepted huge window whose window-sized allocation the harness refuses is recorded as accepted. Every case is distinct; non-trivial = outcome agrees with the rule (all cases reach the limit check)");
     run.sample(json!({"window": "descriptor 0x88", "declared": window_of_descriptor(0x88), "limit": window_of_descriptor(0x88) - 1, "position": "after a failed frame", "front_end": "reset", "expected": "WindowSizeTooBig"}));
     run.finish()
 }
